@@ -31,7 +31,10 @@ FEATURES = ["n_nodes_per_face", "edge_node_connectivity", "face_edge_connectivit
             "edge_x", "face_areas", "bounds", "edge_node_distances", "edge_face_distances",
             "antimeridian_face_indices", "hole_edge_indices", "ball_tree", "kd_tree", "normalize"]
 SOURCES = ["topo_ll", "topo_ll", "topo_ll", "topo_llxyz", "topo_llxyz", "exodus_src", "ugrid_src",
-           "topo_edges", "xyz_only"]
+           "topo_edges", "xyz_only", "file_ugrid", "file_ugrid", "file_exodus", "file_scrip"]
+MESHFILES = ["ugrid/geoflow-small/grid.nc", "ugrid/outCSne30/outCSne30.ug", "exodus/mixed/mixed.exo",
+             "exodus/outCSne8/outCSne8.g", "scrip/outCSne8/outCSne8.nc"]
+FROM_GRID_TRUTH = ("file_ugrid", "file_exodus", "file_scrip")     # + every "meshfile:..." source
 OPTIONAL_KEYS = ["edge_dimension", "face_coordinates", "edge_coordinates"]
 
 
@@ -130,7 +133,8 @@ def gen_scenario(rng, tier, idx):
         src = rng.choice(SOURCES)
         if src == "xyz_only" and rng.random() < 0.5:
             src = "topo_ll"
-        grids.append({"mesh": mc, "source": src, "radius": rng.choice([1.0, 1.0, 2.0])})
+        grids.append({"mesh": mc, "source": src, "radius": rng.choice([1.0, 1.0, 2.0]),
+                      "file_fill": rng.choice([-1, -1, 999999, 0]), "file_start": rng.choice([0, 1])})
     actions = []
     if pattern < 0.3:
         # shared-template pattern: a grid with many derived variables is encoded as UGRID first, then
@@ -188,6 +192,21 @@ def fixed_scenarios():
                 "actions": [["mat", 0, "node_x"], ["enc", 0, "exodus", False]]})
     out.append({"grids": [{"mesh": mixed, "source": "xyz_only", "radius": 1.0}],
                 "actions": [["enc", 0, "exodus", False], ["enc", 0, "ugrid", False]]})
+    # grids opened FROM A FILE (int32 connectivity, declared _FillValue, start_index 0/1): the source
+    # file's encoding must not block the export
+    for mesh in (tri, mixed):
+        for src in ("file_ugrid", "file_exodus", "file_scrip"):
+            for k, fmt in enumerate(FORMATS):
+                out.append({"grids": [{"mesh": mesh, "source": src, "radius": 1.0, "file_fill": [-1, 999999, -1][k],
+                                       "file_start": [1, 0, 1][k]}],
+                            "actions": [["enc", 0, fmt, False], ["mat", 0, "edge_node_connectivity"],
+                                        ["enc", 0, fmt, True]]})
+    # the real mesh files of the test-suite (read-only)
+    for rel in MESHFILES:
+        out.append({"grids": [{"mesh": {"table": [], "lon": [], "lat": [], "name": rel, "sizes": [], "padded": False,
+                                        "kind": "meshfile"}, "source": "meshfile:" + rel, "radius": 1.0}],
+                    "actions": [["enc", 0, "ugrid", False], ["mat", 0, "edge_node_connectivity"],
+                                ["enc", 0, "ugrid", True], ["enc", 0, "exodus", False], ["enc", 0, "scrip", False]]})
     wide = {"table": [[0, 1, 2] + [F] * 6, [2, 3, 4] + [F] * 6], "lon": lon, "lat": lat, "name": "wide9",
             "sizes": [3], "padded": True, "kind": "fixed"}
     out.append({"grids": [{"mesh": wide, "source": "topo_ll", "radius": 1.0}],
@@ -247,8 +266,10 @@ class Impl:
         ug.EDGE_NODE_CONNECTIVITY_ATTRS.clear()
         ug.EDGE_NODE_CONNECTIVITY_ATTRS.update(self.base_edge_attrs)
 
-    def make_grid(self, gd):
+    def make_grid(self, gd, scratch=None, tag="g"):
         ux, xr, ug = self.ux, self.xr, self.ug
+        if gd["source"].startswith("meshfile:"):
+            return ux.open_grid(os.path.join(common.REPO, "test", "meshfiles", gd["source"][9:]))
         m = gd["mesh"]
         lon = np.array(m["lon"], dtype=float)
         lat = np.array(m["lat"], dtype=float)
@@ -278,6 +299,8 @@ class Impl:
                                                         attrs=dict(ug.FACE_NODE_CONNECTIVITY_ATTRS))
             ds["grid_topology"] = xr.DataArray(-1, attrs=dict(self.base_template))
             return ux.open_grid(ds)
+        if src in ("file_ugrid", "file_exodus", "file_scrip"):
+            return self.make_file_grid(gd, lon, lat, t, pts, scratch, tag)
         if src == "xyz_only":
             ds = xr.Dataset()
             for k, nm in enumerate(["node_x", "node_y", "node_z"]):
@@ -286,6 +309,55 @@ class Impl:
                                                         attrs=dict(ug.FACE_NODE_CONNECTIVITY_ATTRS))
             return ux.Grid.from_dataset(ds, source_grid_spec="Cartesian")
         raise ValueError(src)
+
+    def make_file_grid(self, gd, lon, lat, t, pts, scratch, tag):
+        """write a NetCDF file in the source format (int32 connectivity, declared _FillValue, start_index
+        0 or 1) under the scratch directory and open it with ux.open_grid(path)"""
+        ux, xr = self.ux, self.xr
+        src = gd["source"]
+        padded = bool((t == FILL).any())
+        if src == "file_scrip" and padded:
+            src = "file_ugrid"                   # SCRIP has no padding; mixed meshes go through UGRID
+        path = os.path.join(scratch, "src_%s.nc" % tag)
+        if os.path.exists(path):
+            os.remove(path)
+        fv = int(gd.get("file_fill", -1))
+        st = int(gd.get("file_start", 1))
+        if fv == 0 and st == 0:
+            fv = -1                              # 0 would be a valid zero-based index
+        ds = xr.Dataset()
+        if src == "file_ugrid":
+            conn = np.where(t == FILL, fv, t + st).astype(np.int32)
+            ds["Mesh2"] = xr.DataArray(np.int32(0), attrs={
+                "cf_role": "mesh_topology", "topology_dimension": np.int32(2),
+                "node_coordinates": "Mesh2_node_x Mesh2_node_y", "face_node_connectivity": "Mesh2_face_nodes",
+                "face_dimension": "nMesh2_face"})
+            ds["Mesh2_node_x"] = xr.DataArray(lon, dims=["nMesh2_node"], attrs={"standard_name": "longitude", "units": "degrees_east"})
+            ds["Mesh2_node_y"] = xr.DataArray(lat, dims=["nMesh2_node"], attrs={"standard_name": "latitude", "units": "degrees_north"})
+            ds["Mesh2_face_nodes"] = xr.DataArray(conn, dims=["nMesh2_face", "nMaxMesh2_face_nodes"],
+                                                  attrs={"cf_role": "face_node_connectivity", "start_index": np.int32(st),
+                                                         "_FillValue": np.int32(fv)})
+        elif src == "file_exodus":
+            ds["coord"] = xr.DataArray(pts.T.copy(), dims=["num_dim", "num_nodes"])
+            rows = [[int(x) for x in r if x != FILL] for r in t.tolist()]
+            for b, k in enumerate(sorted({len(r) for r in rows}), start=1):
+                blk = np.array([r for r in rows if len(r) == k], dtype=np.int32) + 1
+                ds["connect%d" % b] = xr.DataArray(blk, dims=["num_el_in_blk%d" % b, "num_nod_per_el%d" % b],
+                                                   attrs={"elem_type": "SHELL%d" % k})
+        else:
+            clon, clat = lon[t], lat[t]
+            ctr = pts[t].mean(axis=1)
+            ctr /= np.linalg.norm(ctr, axis=1)[:, None]
+            ds["grid_corner_lon"] = xr.DataArray(clon, dims=["grid_size", "grid_corners"], attrs={"units": "degrees"})
+            ds["grid_corner_lat"] = xr.DataArray(clat, dims=["grid_size", "grid_corners"], attrs={"units": "degrees"})
+            ds["grid_center_lon"] = xr.DataArray(np.degrees(np.arctan2(ctr[:, 1], ctr[:, 0])) % 360.0, dims=["grid_size"])
+            ds["grid_center_lat"] = xr.DataArray(np.degrees(np.arcsin(ctr[:, 2])), dims=["grid_size"])
+            ds["grid_area"] = xr.DataArray(np.full(t.shape[0], 0.01), dims=["grid_size"])
+            ds["grid_imask"] = xr.DataArray(np.ones(t.shape[0], dtype=np.int32), dims=["grid_size"])
+            ds["grid_dims"] = xr.DataArray(np.array([t.shape[0]], dtype=np.int32), dims=["grid_rank"])
+        ds.to_netcdf(path)
+        ds.close()
+        return ux.open_grid(path)
 
     def materialise(self, g, feat):
         try:
@@ -428,6 +500,15 @@ def signature(ds):
     return "unknown"
 
 
+def truth_from_grid(g):
+    """for grids opened from a file the reference is the grid itself (C01 owns the reading)"""
+    t = np.asarray(g.face_node_connectivity.values)
+    faces = [[int(x) for x in r if x != FILL] for r in t.tolist()]
+    pts = np.array([xyz_of_deg(a, b) for a, b in zip(np.asarray(g.node_lon.values, dtype=float).tolist(),
+                                                      np.asarray(g.node_lat.values, dtype=float).tolist())])
+    return faces, pts, pts
+
+
 def truth_of(gd):
     m = gd["mesh"]
     faces = [[x for x in r if x != FILL] for r in m["table"]]
@@ -448,12 +529,23 @@ def compare_faces(fmt, faces, pts, alt, g2):
     p2 = np.array([xyz_of_deg(a, b) for a, b in zip(lon2.tolist(), lat2.tolist())]).reshape(-1, 3)
     info = {}
 
+    tol_chord = 2.0 * math.sin(TOL_RAD / 2.0)
+
+    def matcher(ref):
+        from scipy.spatial import cKDTree
+        tree = cKDTree(ref)
+
+        def canon_of(p):
+            hits = tree.query_ball_point(p, tol_chord * (1 + 1e-9))
+            return min(hits) if hits else None       # coinciding nodes: the smallest index of the class
+        return canon_of
+
     def match(ref):
+        f = matcher(ref)
         mp = {}
         for i in used:
-            d = np.sqrt(((ref - p2[i]) ** 2).sum(-1))
-            j = int(d.argmin())
-            if d[j] > TOL_RAD:
+            j = f(p2[i])
+            if j is None:
                 return None
             mp[i] = j
         return mp
@@ -466,6 +558,14 @@ def compare_faces(fmt, faces, pts, alt, g2):
         what = "positions"
     else:
         what = None
+    fcanon = matcher(pts)
+    ccache = {}
+
+    def canon_id(j):
+        if j not in ccache:
+            ccache[j] = fcanon(pts[j])
+        return ccache[j]
+    faces = [[canon_id(j) for j in f] for f in faces]
     got = [[mp[int(x)] for x in r if x != FILL] for r in t2.tolist()]
     a = [min_rotation(f) for f in got]
     b = [min_rotation(f) for f in faces]
@@ -490,9 +590,14 @@ def run_scenario(impl, sc, scratch, tag):
     impl.reset_globals()
     grids = [None] * len(sc["grids"])
     errs = []
+    truths = [None] * len(sc["grids"])
     for gi, gd in enumerate(sc["grids"]):
         try:
-            grids[gi] = impl.make_grid(gd)
+            grids[gi] = impl.make_grid(gd, scratch, "%s_%d" % (tag, gi))
+            if gd["source"] in FROM_GRID_TRUTH or gd["source"].startswith("meshfile:"):
+                truths[gi] = truth_from_grid(grids[gi])
+            else:
+                truths[gi] = truth_of(gd)
         except Exception as e:
             errs.append("make_grid %d %s: %r" % (gi, gd["source"], e))
     obs = []
@@ -576,7 +681,7 @@ def run_scenario(impl, sc, scratch, tag):
             o["corner_lat"] = np.asarray(out["grid_corner_lat"].values, dtype=float)
         o["bad_attrs_out"] = bad_attrs(out)
         # ---- reopen directly
-        faces, pts, alt = truth_of(gd)
+        faces, pts, alt = truths[gi]
         try:
             g2 = ux.open_grid(out)
             o["direct_exc"] = None
@@ -607,6 +712,11 @@ def run_scenario(impl, sc, scratch, tag):
         except OSError:
             pass
         obs.append(o)
+    for gi in range(len(sc["grids"])):
+        try:
+            os.remove(os.path.join(scratch, "src_%s_%d.nc" % (tag, gi)))
+        except OSError:
+            pass
     return {"obs": obs, "mats": mats, "errs": errs}
 
 
@@ -667,7 +777,7 @@ def spec_check(ck, sc, o, label):
 # ---------------------------------------------------------------------------------------------
 # model side
 
-VARIANTS = {"faithful": [1, -1, 0, 1, 0, 0, 0], "repaired": [1, FILL, 1, 1, 1, 1, 1]}
+VARIANTS = {"faithful": [1, FILL, 1, 1, 1, 1, 0], "repaired": [1, FILL, 1, 1, 1, 1, 1]}
 
 
 def all_variants():
@@ -907,7 +1017,8 @@ def main(ck):
         check_constants(ck, impl)
     ck.cov["rule"] = ("corpus + the histories named in DESIGN section 8 (fresh/mixed/one-face grid x 3 formats x lon/lat "
                       "and xyz sources, big-then-small encode, edges/bounds/node_x materialised first, Cartesian-only "
-                      "source, 9-column table) + systematic depth-1 histories (each of 20 derived quantities x 3 formats "
+                      "source, 9-column table; grids opened from NetCDF files written in UGRID/Exodus/SCRIP form with int32 "
+                      "connectivity, declared _FillValue and start_index 0/1; the five real mesh files of test/meshfiles) + systematic depth-1 histories (each of 20 derived quantities x 3 formats "
                       "on a mixed and a uniform grid; all 16 ordered pairs of equipment levels across two grids) + "
                       "random histories (30% follow the shared-template pattern big-grid-then-other-grid): 1-3 grids (uniform tetra/cube/octa/icosa tilings, "
                       "mixed 3..8-gon tilings grown by split/subdivide/stellate/dual, partial, 1-2 face grids, "
